@@ -637,6 +637,7 @@ func runC09(c *Ctx) {
 	c.St.Rule = "receivers in every growth history x every deriving operation applied twice x every mutator applied to receiver, argument and both results in turn, all containers snapshotted after each step; non-trivial always (>= 6 operations); distinct by (history, deriving op, mutator)"
 	c.reentrant("C09")
 	c.nilArguments()
+	c.slicesStratum()
 	c.rawBytes("C09")
 	c.emptyReceivers()
 	c.omoList("C09")
